@@ -269,12 +269,15 @@ def main(tier: str) -> int:
     return run.finish(
         rule='multi-client shells over interfaces whose claim/release events have arbitrary names '
              'and formals (decoy events literally called Claim/Release, granting value = any '
-             'enumerator, enum nested or at namespace level), 1-5 registered clients; histories '
+             'enumerator, enum nested or at namespace level), 1-5 registered clients of structured '
+             'identifiers in any registration order; every third random history starts before '
+             'FinalConstruct(); histories '
              'of 1-30 operations (claim with scripted reply, release, other in-events, component '
              'out-events), one process per history; evaluations = programs',
-        assumptions=['a component that grants a second claim while another client holds one is '
-                     'outside the statement\'s presupposition (exactly one holder): such states '
-                     'are judged leniently (at most one delivery, inside the granted set)',
+        assumptions=['while a component has granted the claim to several clients at once the '
+                     'statement\'s "the one" is not unique: such moments are judged leniently (at '
+                     'most one delivery, inside the granted set); with exactly one holder left '
+                     'the statement is applied literally',
                      'mock Dezyne runtime and scripted mock component are the trusted base'])
 
 
